@@ -75,6 +75,7 @@ def b_geometry(cl, mod, H):
         if len(found) != 1 or found[0].decl().kind() != z3.Z3_OP_DIV: return None
         return found[0].arg(1)
     for tag, args, fac, extra, what in (
+            ('identity', lambda: [i, j, k], lambda e_: RealVal(1), BoolVal(True), 'same characterisation through the two-step route (lemma on the quadratic form, then rewrite)'),
             ('inversion', lambda: [-i, -j, -k], lambda e_: RealVal(1), BoolVal(True), 'the d-spacing of (-h,-k,-l) satisfies the same equation as that of (h,k,l): invariant under inversion'),
             ('scaling', lambda: [nmul * i, nmul * j, nmul * k], lambda e_: e_.int2real(nmul) * e_.int2real(nmul), And(nmul != 0, small(nmul)),
              'd(n h)^2 n^2 Q(h) (abc)^2 = V^2, i.e. d(n h) = d(h)/|n|')):
@@ -86,7 +87,7 @@ def b_geometry(cl, mod, H):
         target = fac(e2) * Q
         # two steps: (1) the quadratic form of the transformed indices equals the stated multiple of Q(h) (polynomial identity);
         #            (2) with that lemma, the characterisation of d
-        A('d/%s/lemma' % tag, e2, And(a != 0, b != 0, c != 0, extra), qd == target, 'quadratic form of the transformed indices = %s x Q(h,k,l)' % ('1' if tag == 'inversion' else 'n^2'))
+        A('d/%s/lemma' % tag, e2, And(a != 0, b != 0, c != 0, extra), qd == target, 'quadratic form under the square root (transformed indices) = %s x the reciprocal-metric form Q(h,k,l)' % ('n^2' if tag == 'scaling' else '1'))
         class _E: pass
         e3 = _E(); e3.branch_preds = {}
         e3.axioms = [z3.substitute(x, (qd, target)) for x in e2.axioms]      # rewriting with the proved lemma
